@@ -21,6 +21,15 @@ Lemma chiaverini_batch_inverts w x y z : w*w+x*x+y*y+z*z = 1 -> w <> 0 ->
   C02_chiaverini_batch_q_R w x y z = Val (qsc (Rsgn w) w x y z).
 Proof. intros Hunit Hw. unit_open Hunit U. unfold C02_chiaverini_batch_q_R. chia w x y z U Hu Hw. Qed.
 
+(* rows of a stack do not influence each other (generic row next to the fixed 120-degree cyclic permutation and identity rows) *)
+Lemma chiaverini_mixed_inverts w x y z : w*w+x*x+y*y+z*z = 1 -> w <> 0 ->
+  C02_chiaverini_mixed_gh_q_R w x y z = Val (qsc (Rsgn w) w x y z) /\ C02_chiaverini_mixed_hig_q_R w x y z = Val (qsc (Rsgn w) w x y z).
+Proof.
+  intros Hunit Hw. unit_open Hunit U. split.
+  - unfold C02_chiaverini_mixed_gh_q_R. chia w x y z U Hu Hw.
+  - unfold C02_chiaverini_mixed_hig_q_R. chia w x y z U Hu Hw.
+Qed.
+
 Example chiaverini_example : C02_chiaverini_q_R (-3/5) (4/5) 0 0 = Val [3/5; -4/5; 0; 0].
 Proof.
   rewrite chiaverini_inverts; [|field|lra]. rewrite Rsgn_neg by lra. unfold qsc. val_eq; field.
